@@ -13,12 +13,14 @@ import (
 	"fmt"
 	"io"
 	"log/slog"
+	"strings"
 	"sync"
 	"sync/atomic"
 	"time"
 
 	"github.com/gordian-engine/gordian/gassert/gasserttest"
 	"github.com/gordian-engine/gordian/gcrypto"
+	"github.com/gordian-engine/gordian/gexchange"
 	"github.com/gordian-engine/gordian/gwatchdog"
 	"github.com/gordian-engine/gordian/internal/verifhook"
 	"github.com/gordian-engine/gordian/internal/verifkit"
@@ -385,6 +387,10 @@ type node struct {
 
 	incarnation int
 
+	// C09: deliver through the shipped feedback mappers (0 = direct, else alternate)
+	useMappers bool
+	mapperTurn atomic.Uint64
+
 	// state machine stand-in
 	smActions chan tmeil.StateMachineRoundAction
 	smH       uint64
@@ -408,14 +414,22 @@ func newNode(ctx context.Context, cs *caseState) *node {
 // start creates a mirror incarnation on the node's stores.
 // It returns an error string (constructor error or panic) or "".
 func (n *node) start() (errKey string, errMsg string) {
+	n.rmu.Lock()
 	n.incarnation++
+	n.rmu.Unlock()
 	ctx, cancel := context.WithCancelCause(n.rootCtx)
 	n.cancel = cancel
 	n.dead.Store(false)
 	n.panicKey, n.panicMsg, n.panicStack = "", "", ""
 
+	inc := n.incarnation
 	ctx = verifhook.WithCatcher(ctx, func(name string, val any, stack []byte) {
 		n.rmu.Lock()
+		if inc != n.incarnation {
+			// a goroutine of an incarnation the harness already stopped ("the process is gone")
+			n.rmu.Unlock()
+			return
+		}
 		n.panicName = name
 		n.panicMsg = fmt.Sprint(val)
 		n.panicStack = string(stack)
@@ -497,6 +511,9 @@ func (n *node) stop() {
 	if n.cancel == nil {
 		return
 	}
+	n.rmu.Lock()
+	n.incarnation++
+	n.rmu.Unlock()
 	n.cancel(fmt.Errorf("harness stop"))
 	if n.m != nil {
 		n.m.Wait()
@@ -657,10 +674,21 @@ func (n *node) deliverPH(ph tmconsensus.ProposedHeader) (res tmconsensus.HandleP
 	defer cancel()
 	lg := &loopGuard{cancel: cancel}
 	ctx = context.WithValue(ctx, loopGuardKey{}, lg)
-	p, key, msg, stack := verifkit.Guard(func() { res = n.m.HandleProposedHeader(ctx, ph) })
+	p, key, msg, stack := verifkit.Guard(func() {
+		if h, rec := n.mapped(); h != nil {
+			fb := h.HandleProposedHeader(ctx, ph)
+			res = rec.ph
+			n.checkFeedback(fb, "HandleProposedHeader", res.String())
+		} else {
+			res = n.m.HandleProposedHeader(ctx, ph)
+		}
+	})
 	if p {
 		n.callerPanic(key, msg, stack)
 		return res, false
+	}
+	if ctx.Err() == nil && !lg.tr.Load() && !definedResult(res.String()) {
+		n.cs.violate("C09", "C09:undefined-result:HandleProposedHeader", "HandleProposedHeader returned the undefined result "+res.String(), nil)
 	}
 	if lg.tr.Load() {
 		n.cs.count("livelock.HandleProposedHeader")
@@ -688,9 +716,20 @@ func (n *node) deliverPrevotes(p tmconsensus.PrevoteSparseProof) (tmconsensus.Ha
 	ctx, cancel := n.callCtx()
 	defer cancel()
 	var res tmconsensus.HandleVoteProofsResult
-	if pn, key, msg, stack := verifkit.Guard(func() { res = n.m.HandlePrevoteProofs(ctx, p) }); pn {
+	if pn, key, msg, stack := verifkit.Guard(func() {
+		if h, rec := n.mapped(); h != nil {
+			fb := h.HandlePrevoteProofs(ctx, p)
+			res = rec.v
+			n.checkFeedback(fb, "HandlePrevoteProofs", res.String())
+		} else {
+			res = n.m.HandlePrevoteProofs(ctx, p)
+		}
+	}); pn {
 		n.callerPanic(key, msg, stack)
 		return res, false
+	}
+	if ctx.Err() == nil && !definedResult(res.String()) {
+		n.cs.violate("C09", "C09:undefined-result:HandlePrevoteProofs", "HandlePrevoteProofs returned the undefined result "+res.String(), nil)
 	}
 	return res, ctx.Err() == nil
 }
@@ -702,9 +741,20 @@ func (n *node) deliverPrecommits(p tmconsensus.PrecommitSparseProof) (tmconsensu
 	ctx, cancel := n.callCtx()
 	defer cancel()
 	var res tmconsensus.HandleVoteProofsResult
-	if pn, key, msg, stack := verifkit.Guard(func() { res = n.m.HandlePrecommitProofs(ctx, p) }); pn {
+	if pn, key, msg, stack := verifkit.Guard(func() {
+		if h, rec := n.mapped(); h != nil {
+			fb := h.HandlePrecommitProofs(ctx, p)
+			res = rec.v
+			n.checkFeedback(fb, "HandlePrecommitProofs", res.String())
+		} else {
+			res = n.m.HandlePrecommitProofs(ctx, p)
+		}
+	}); pn {
 		n.callerPanic(key, msg, stack)
 		return res, false
+	}
+	if ctx.Err() == nil && !definedResult(res.String()) {
+		n.cs.violate("C09", "C09:undefined-result:HandlePrecommitProofs", "HandlePrecommitProofs returned the undefined result "+res.String(), nil)
 	}
 	return res, ctx.Err() == nil
 }
@@ -789,4 +839,56 @@ func (n *node) settlePH(ph tmconsensus.ProposedHeader) {
 			return
 		}
 	}
+}
+
+// fgRecorder is a FineGrainedConsensusHandler that remembers the mirror's result
+// while a shipped feedback mapper translates it.
+type fgRecorder struct {
+	m  *tmmirror.Mirror
+	ph tmconsensus.HandleProposedHeaderResult
+	v  tmconsensus.HandleVoteProofsResult
+}
+
+func (r *fgRecorder) HandleProposedHeader(ctx context.Context, ph tmconsensus.ProposedHeader) tmconsensus.HandleProposedHeaderResult {
+	r.ph = r.m.HandleProposedHeader(ctx, ph)
+	return r.ph
+}
+func (r *fgRecorder) HandlePrevoteProofs(ctx context.Context, p tmconsensus.PrevoteSparseProof) tmconsensus.HandleVoteProofsResult {
+	r.v = r.m.HandlePrevoteProofs(ctx, p)
+	return r.v
+}
+func (r *fgRecorder) HandlePrecommitProofs(ctx context.Context, p tmconsensus.PrecommitSparseProof) tmconsensus.HandleVoteProofsResult {
+	r.v = r.m.HandlePrecommitProofs(ctx, p)
+	return r.v
+}
+
+// mapped returns one of the two shipped feedback mappers in front of the mirror
+// (alternating), or nil when the case delivers directly.
+func (n *node) mapped() (tmconsensus.ConsensusHandler, *fgRecorder) {
+	if !n.useMappers {
+		return nil, nil
+	}
+	rec := &fgRecorder{m: n.m}
+	switch n.mapperTurn.Add(1) % 3 {
+	case 0:
+		return tmconsensus.AcceptAllValidFeedbackMapper{Handler: rec}, rec
+	case 1:
+		return tmconsensus.DropDuplicateFeedbackMapper{Handler: rec}, rec
+	default:
+		return nil, nil
+	}
+}
+
+func (n *node) checkFeedback(fb gexchange.Feedback, method, res string) {
+	n.cs.count(fmt.Sprintf("feedback.%d", fb))
+	switch fb {
+	case gexchange.FeedbackAccepted, gexchange.FeedbackRejected, gexchange.FeedbackIgnored, gexchange.FeedbackRejectAndDisconnect:
+	default:
+		n.cs.violate("C09", "C09:feedback-mapper-returned-undefined-feedback:"+method, fmt.Sprintf("feedback mapper translated %s into feedback value %d", res, fb), nil)
+	}
+}
+
+// definedResult reports whether a stringer rendering names a declared constant.
+func definedResult(s string) bool {
+	return s != "" && !strings.Contains(s, "(")
 }
